@@ -12,6 +12,7 @@ import json
 import os
 
 import vlib
+import st_cluster
 
 LEVEL = "model_checking"
 MODULE = "FairShare"
@@ -108,6 +109,10 @@ def run(ctx):
         account(ctx, t)
         vlib.validate_traces(ctx, TRACE, t, trace_invariants(), "C09_", constants=consts, overrides={"ModelWf": "TraceWf"}, timeout=3000, heap="12g")
     ctx.cov["exhaustive"] = False
+    # the hierarchical recursion of the real proportion plugin: every QueueInfo of real sessions is judged
+    # level by level with the same contract (Cluster!C09_SessionContract)
+    n = 200 if ctx.quick else 4000
+    st_cluster.run_stage(ctx, ["C09_"], [("mixed", n // 2), ("full", n // 2)])
 
 
 def replay(ctx, obj):
